@@ -42,5 +42,8 @@ SplitLayouts(Gaps, Olds, Thirds, Orders, LBs, Ps) ==
   {[gap |-> g, old |-> o, third |-> t, order |-> r, lb |-> lb, p |-> p] :
       g \in Gaps, o \in Olds, t \in Thirds, r \in Orders, lb \in LBs, p \in Ps}
 
+(* ---- F3d: a two-level group seen by several ceilometers at coincident times (ties in the time order) ---- *)
+TieSplitLayouts(NCs, Gaps, LBs, Ps) == {[nce |-> n, gap |-> g, lb |-> lb, p |-> p] : n \in NCs, g \in Gaps, lb \in LBs, p \in Ps}
+
 Export(name, S) == JsonSerialize(IOEnv.OUT_DIR \o "/" \o name \o ".json", SetToSeq(S))
 =============================================================================
